@@ -34,7 +34,7 @@ CHECKS = {
  "C17": ("storesim", "exploration", "DESIGN.md 7/C17", T + "seeded re-delivery histories incl. concurrent repeats under schedule exploration, seal and restart; set-semantics reference model",
    "Re-delivered documents are listed once and fetch their original bytes; totals, histograms, aggregations and document counts count them once while all copies sit in one fraction; includes documents with nested elements (several metas under one ID).", TRUST),
  "C09": ("proxysim", "fault_enumeration", "DESIGN.md 7/C09", T + "scripted per-call outcomes (success/error/timeout/late success/lost reply) on a simulated transport against the real bulk client and real circuit breaker under a fake clock; oracle over the recorded call log",
-   "For every acknowledged bulk the stubs' call log must contain, for one hot shard (and one long-term shard when configured), a successful delivery of exactly that payload to every replica; retries are bounded; once faults stop a bulk goes through within a bounded number of breaker sleep windows.", TRUST),
+   "For every acknowledged bulk the stubs' call log must contain, for one hot shard (and one long-term shard when configured), a successful delivery of exactly that payload to every replica; retries are bounded; once faults stop a bulk goes through within a bounded number of breaker sleep windows. Request deadlines and cancellations are part of the fault space. A second lane runs the client against real stores that crash in the middle of their writes, lose replies and are partitioned: after recovery every acknowledged bulk sits byte for byte on every replica of some hot (and long-term) shard.", TRUST),
  "C10": ("proxysim", "exploration", "DESIGN.md 7/C10", T + "simulated request-body stream (seeded chunking, cut, read error, gzip) and simulated clock against the real HTTP bulk handler and bulk ingestor; independent framing parser and time rule as oracle; metamorphic equality across chunkings",
    "Decides the stream/clock facet of C10: the line reader hands out slices of a reused buffer, so what is stored may depend on how the body arrives; the receive time is the clock; the storage call can fail. Valid object documents must be stored verbatim once each, timed by rule, or nothing stored; identical for every chunking; also with one long-lived ingestor across requests at different simulated times and with 2-4 requests in flight at once after a failed store call. The full input space of JSON shapes is not claimed.", TRUST),
  "C16": ("proxysim", "fault_enumeration", "DESIGN.md 7/C16", T + "scripted per-call store behaviours and broken fetch streams on a simulated transport against the real search ingestor and docs iterators; oracle computed from the script and a model corpus",
